@@ -10,7 +10,7 @@ AREA = "safeptr"
 PROPS_MODULE = "MorfuseModel.Props.C12"
 PROPS_FILE = os.path.join(LEAN, "MorfuseModel", "Props", "C12.lean")
 NOBJ, NREF = 3, 5
-OPS = ["newobj", "delobj", "newref", "copyref", "assignobj", "assignref", "clear", "delref"]
+OPS = ["newobj", "delobj", "newref", "copyref", "assignobj", "assignref", "clear", "delref", "moveassign", "movector", "cadd", "cadd", "cremove"]
 
 TRUSTED = [
     "Lean 4.33.0 kernel (lake build; leanchecker in the thorough tier)",
@@ -47,6 +47,7 @@ def gen_case(rng, n, nobj=NOBJ, nref=NREF):
     stream of illegal ones (both sides must answer bad-op)."""
     lines = ["universe %d %d" % (nobj, nref)]
     objs, refs = set(), set()
+    ncont = [0]
     for _ in range(n):
         illegal = rng.random() < 0.03
         op = rng.choice(OPS)
@@ -54,7 +55,7 @@ def gen_case(rng, n, nobj=NOBJ, nref=NREF):
         anyref = lambda: rng.randint(1, nref)
         if illegal:
             a, b = rng.randint(0, nref + 1), rng.randint(0, nobj + 1)
-            lines.append("%s %d" % (op, a) if op in ("newobj", "delobj", "clear", "delref") else "%s %d %d" % (op, a, b))
+            lines.append("%s %d" % (op, a) if op in ("newobj", "delobj", "clear", "delref", "cadd", "cremove") else "%s %d %d" % (op, a, b))
             continue
         if op == "newobj":
             free = [o for o in range(1, nobj + 1) if o not in objs]
@@ -91,6 +92,28 @@ def gen_case(rng, n, nobj=NOBJ, nref=NREF):
             if not refs:
                 continue
             lines.append("clear %d" % rng.choice(sorted(refs)))
+        elif op == "moveassign":
+            if len(refs) < 2:
+                continue
+            a, b = rng.sample(sorted(refs), 2)
+            lines.append("moveassign %d %d" % (a, b))
+        elif op == "movector":
+            free = [r for r in range(1, nref + 1) if r not in refs]
+            if not free or not refs:
+                continue
+            r = rng.choice(free); q = rng.choice(sorted(refs)); refs.add(r)
+            lines.append("movector %d %d" % (r, q))
+        elif op == "cadd":
+            if ncont[0] >= 30:
+                continue
+            o = rng.choice(sorted(objs)) if objs and rng.random() < 0.9 else 0
+            ncont[0] += 1
+            lines.append("cadd %d" % o)
+        elif op == "cremove":
+            if ncont[0] == 0 or rng.random() < 0.3:
+                continue
+            lines.append("cremove %d" % rng.randint(1, ncont[0]))
+            ncont[0] -= 1
         elif op == "delref":
             if not refs or rng.random() < 0.4:
                 continue
